@@ -20,9 +20,13 @@ import (
 // _render (layout-independent drawing + Write of one board), os.RemoveAll, the clock.
 
 var c34Written, c34Removed []string
+var c34WrittenFor map[*d2target.Diagram]string
 
 func VerifStubRenderOne(ctx context.Context, ms *xmain.State, plugin d2plugin.Plugin, opts d2svg.RenderOpts, inputPath, outputPath string, bundle, forceAppendix bool, browser playwright.Browser, ruler *textmeasure.Ruler, diagram *d2target.Diagram, outputFormat exportExtension, asciiMode string) ([]byte, error) {
 	c34Written = append(c34Written, outputPath)
+	if c34WrittenFor != nil {
+		c34WrittenFor[diagram] = outputPath
+	}
 	return []byte("<svg/>"), nil
 }
 
@@ -51,43 +55,108 @@ func c34Inside(p, dir string) bool {
 
 // VerifC34Paths: every board of a multi-board diagram is written to a
 // distinct file inside the directory derived from the output path; nothing
-// outside is written or removed, whatever the board names are.
-func VerifC34Paths() {
+// outside is written or removed, whatever the board names are; and the file
+// resolveLinks names for a board (the target links are rewritten to, C35) is
+// the file render writes that board to, for every combination of board kinds.
+func VerifC34Paths() { c34Paths(false) }
+
+// VerifC35Files: the same harness registered for the link-rewriting clause of C35.
+func VerifC35Files() { c34Paths(true) }
+
+func c34Paths(linksOnly bool) {
 	root := &d2target.Diagram{}
-	l1 := c34Board("l")
-	root.Layers = append(root.Layers, l1)
-	switch nd.Choose("tree", 0, 2) {
-	case 0: // one layer
-	case 1: // a nested layer below the first one
-		l1.Layers = append(l1.Layers, c34Board("m"))
-	case 2: // a layer and a scenario
-		root.Scenarios = append(root.Scenarios, c34Board("s"))
+	var all []*d2target.Diagram
+	keys := map[*d2target.Diagram]string{root: "root"}
+	add := func(parent *d2target.Diagram, kind string, tag string) *d2target.Diagram {
+		d := c34Board(tag)
+		switch kind {
+		case "layers":
+			parent.Layers = append(parent.Layers, d)
+		case "scenarios":
+			parent.Scenarios = append(parent.Scenarios, d)
+		case "steps":
+			parent.Steps = append(parent.Steps, d)
+		}
+		keys[d] = keys[parent] + "." + kind + "." + d.Name
+		all = append(all, d)
+		return d
 	}
-	if nd.Known("C34-board-named-index") {
+	switch nd.Choose("tree", 0, nd.Param("TREES", 8)-1) {
+	case 0: // one layer
+		add(root, "layers", "l")
+	case 1: // a nested layer below the first one
+		add(add(root, "layers", "l"), "layers", "m")
+	case 2: // a layer and a scenario
+		add(root, "layers", "l")
+		add(root, "scenarios", "s")
+	case 3: // steps only
+		add(root, "steps", "l")
+		add(root, "steps", "s")
+	case 4: // a layer whose only children are steps
+		add(add(root, "layers", "l"), "steps", "m")
+	case 5: // scenarios and steps, no layers
+		add(root, "scenarios", "l")
+		add(root, "steps", "s")
+	case 6: // a step with a scenario below
+		add(add(root, "steps", "l"), "scenarios", "m")
+	case 7: // all three kinds
+		add(root, "layers", "l")
+		add(root, "scenarios", "s")
+		add(root, "steps", "m")
+	}
+	// sibling boards of one kind have different names (they are keys of one map, compared without case)
+	for i, d := range all {
+		for _, e := range all[:i] {
+			if keys[d][:len(keys[d])-len(d.Name)] == keys[e][:len(keys[e])-len(e.Name)] {
+				nd.Assume(!strings.EqualFold(d.Name, e.Name))
+			}
+		}
+	}
+	if linksOnly || nd.Known("C34-board-named-index") {
 		// recorded finding: a board without children named "index" is written to the file
 		// of its parent board (<dir>/index.svg)
-		for _, d := range append(append([]*d2target.Diagram{l1}, l1.Layers...), root.Scenarios...) {
+		for _, d := range all {
 			nd.Assume(d.Name != "index")
 		}
 	}
-	c34Written, c34Removed = nil, nil
+	c34Written, c34Removed, c34WrittenFor = nil, nil, map[*d2target.Diagram]string{}
 	_, err := render(context.Background(), nil, 0, nil, d2svg.RenderOpts{MasterID: "m"}, "in.d2", "out/x.svg", false, false, nil, nil, root, SVG, "")
 	nd.Assert(err == nil, "rendering succeeds")
 	nd.Cover("rendered")
-	boards := 1 + 1 + len(l1.Layers) + len(root.Scenarios)
+	boards := 1 + len(all)
 	nd.Assert(len(c34Written) == boards, "one file is written per board")
 	for i, p := range c34Written {
+		if linksOnly {
+			break // where the files go is C34's subject
+		}
 		nd.Assert(c34Inside(p, "out/x"), "a board is written outside the directory derived from the output path")
 		for j := 0; j < i; j++ {
 			nd.Assert(filepath.Clean(c34Written[j]) != filepath.Clean(p), "two boards are written to the same file")
 		}
 	}
 	for _, p := range c34Removed {
+		if linksOnly {
+			break
+		}
 		nd.Assert(filepath.Clean(p) == "out/x" || c34Inside(p, "out/x"), "something outside the output location is deleted")
 	}
 	// resolveLinks agrees with render on where each board goes
 	m, err := resolveLinks("root", "out/x.svg", root)
-	nd.Assert(err == nil && len(m) == boards, "every board has a link target")
+	nd.Assert(err == nil, "every board has a link target")
+	distinct := true
+	for i, d := range all {
+		for _, e := range all[:i] {
+			if keys[d] == keys[e] {
+				distinct = false
+			}
+		}
+	}
+	if distinct {
+		nd.Assert(len(m) == boards, "every board has exactly one link target")
+		for _, d := range append([]*d2target.Diagram{root}, all...) {
+			nd.Assert(m[keys[d]] == c34WrittenFor[d], "a link to a board is rewritten to a file other than the one the board is written to")
+		}
+	}
 	for _, v := range m {
 		found := false
 		for _, p := range c34Written {
